@@ -917,3 +917,32 @@ def run(idx, rep, tier):
     from .shared import share
     from . import wire as _wire
     share(k, 'C20.R16', 'channel open messages of forwarded connections have the documented fields (= rows of C02.R1): forwarded-streamlocal@openssh.com carries path and reserved string, written and read', _wire.r1, keep=lambda key: 'streamlocal' in key or 'forwarded' in key or 'direct' in key, args=('C20.R16',))
+    rep.rule('C20.R17', 'SSHConnection.forward_connection: between the '
+             'destination connect and the normal return the state of the '
+             'SSH connection is tested (self._transport), and the branch '
+             'for a connection that is gone closes the new socket - the '
+             'open that asked for it fails with "SSH connection closed" '
+             'and nobody else holds the forwarder')
+    _ff = k.func(CONN + 'forward_connection')
+    _gf = k.cfg(_ff)
+    _cc = [n for n, c in k.calls_named(_ff, 'create_connection')]
+    _tst = [a.id for a in _gf.nodes if a.kind == 'atom' and
+            dotted(a.ast) in ('self._transport',)]
+    rep.floor('C20.R17', 'destination connects', len(_cc), 1)
+    for _n in _cc:
+        _bad = None
+        for _b, _lab in _gf.succ[_n.id]:
+            if _lab == 'exc' or _b in _tst:
+                continue
+            _bad = _bad or _gf.path(_b, _gf.exit, blocked_nodes=_tst,
+                                    follow_exc=False)
+        _cl = [c for c in ast.walk(_ff.node) if is_call(c, 'close')]
+        rep.check(_bad is None and bool(_cl), 'C20.R17',
+                  key(_ff, 'socket of an abandoned open is closed'),
+                  'self._transport tested after the connect, close() on '
+                  'the dead branch',
+                  'the client drops the SSH connection while the server '
+                  'is still connecting a direct-tcpip destination: the '
+                  'connect completes afterwards and the socket is never '
+                  'closed (one fd per open-then-drop)', k.loc(_ff, _n),
+                  _gf.describe_path(_bad) if _bad else None)
